@@ -207,13 +207,19 @@ class Engine:
                 v = m.eval(e, model_completion=True).as_long()
                 d['tried'].append(v)
                 d['v'] = v
+                if not self.check(*[e != t for t in d['tried']])[0]:
+                    d['dead'] = True       # that was the last feasible value
                 if len(d['tried']) > 4096:
                     raise Unsupported("concretisation of an unbounded integer")
             v = d['v']
         else:
             m = self.get_model()
             v = m.eval(e, model_completion=True).as_long()
-            self.decisions.append({'k': 'v', 'v': v, 'tried': [v], 'alt': True})
+            d = {'k': 'v', 'v': v, 'tried': [v], 'alt': True}
+            # look ahead: if no other value is feasible, do not schedule a (costly) re-execution just to find that out
+            if not self.check(e != v)[0]:
+                d['dead'] = True
+            self.decisions.append(d)
             self.pos += 1
             self.concretised += 1
         self.add(e == v)
@@ -242,6 +248,22 @@ class Engine:
         if sat:
             return None
         return const_value(v, approx=True)
+
+    def approx_value(self, e, tol=1e-9):
+        """a number v such that |e - v| <= tol on the whole current path region, or None"""
+        u = self.unique_value(e)
+        if u is not None:
+            return u
+        m = self.get_model()
+        v = const_value(m.eval(e, model_completion=True), approx=True)
+        if v is None:
+            return None
+        vz = z3.RealVal(Fraction(v)) if not isinstance(v, int) else z3.RealVal(v)
+        tz = z3.RealVal(Fraction(tol))
+        ez = z3.ToReal(e) if z3.is_int(e) else e
+        if self.check(z3.Or(ez - vz > tz, vz - ez > tz))[0]:
+            return None
+        return v
 
     def realise(self, e):
         """pin e to its model value (the path then proves nothing beyond that value); counted"""
@@ -579,7 +601,9 @@ class Sym:
             a = toz(s); b = toz(o)
             return mk(a - b * _ifloordiv(a, b))
         a = toz(s, True); b = toz(o, True)
-        return mk(a - b * z3.ToReal(z3.ToInt(a / b)))
+        # real modulo (periodic wrap): case split on the integer quotient, so that the result is linear on each case
+        q = ENGINE.concretize(z3.simplify(z3.ToInt(a / b)))
+        return mk(a - b * q)
 
     def __rmod__(s, o):
         if s.isint and (isinstance(o, int) or _is_np_int(o)):
